@@ -176,6 +176,11 @@ func (j *c03J) point(s c03P) []byte {
 		r.NoteAdd("skipped/decode-wrappers-after-round-trip-failure", 1)
 	} else {
 		r.Eval("point/round-trip-used-receiver", desc, nt)
+		// the receiver holds a finite, non-normalised value whatever p is (2P would be the identity when p is)
+		if p.Equal(g.Point().Null()) {
+			B := g.Gen()
+			fresh = g.Point().Add(B, g.Point().Add(B, B))
+		}
 		if err := fresh.UnmarshalBinary(append([]byte(nil), e1...)); err != nil {
 			bad("round-trip", "own-encoding-rejected-by-used-receiver", "UnmarshalBinary into a receiver holding another point rejects the library's own encoding: "+err.Error(), map[string]any{"enc": mon.Hex(e1)})
 		} else if ed := groups.Enc(fresh); !fresh.Equal(p) || !bytes.Equal(ed, e1) {
